@@ -24,6 +24,8 @@ for d in sorted(glob.glob(f"{ROOT}/seeded/C*-*m[0-9]")):
     if r.returncode != 0:
         print(sid, "PATCH DOES NOT APPLY", r.stderr[:200]); continue
     det = {}
+    # evidence written while a seeded change is applied must not replace the evidence of the unchanged tree
+    sh(f"rm -rf /tmp/evidence.keep && cp -r {ROOT}/evidence /tmp/evidence.keep")
     try:
         for c in checks:
             out = sh(f"cd {ROOT} && VERIF_SEED=1 ./check {c} quick", timeout=1200)
@@ -32,6 +34,7 @@ for d in sorted(glob.glob(f"{ROOT}/seeded/C*-*m[0-9]")):
             print(sid, c, "exit", out.returncode, sigs[:3], flush=True)
     finally:
         sh("git -C /repo checkout -- . && git -C /repo clean -fdq -- src tests")
+        sh(f"cp /tmp/evidence.keep/*.json {ROOT}/evidence/ && rm -rf /tmp/evidence.keep")
     am = json.load(open(f"{d}/agent_meta.json"))
     meta_path = f"{d}/meta.json"
     meta = json.load(open(meta_path)) if os.path.exists(meta_path) else {}
